@@ -22,6 +22,9 @@ fn main() {
     if args.len() >= 3 && args[1] == "--worker" {
         worker::worker_main(&args[2]);
     }
+    if args.len() >= 3 && args[1] == "--history" {
+        props::c06::history_main(&args[2]);
+    }
     if args.len() >= 2 && args[1] == "debug-c06" {
         props::c06::debug();
         return;
